@@ -8,10 +8,13 @@ Oracle: checks/c09_model.py, an independent matcher implementing the rule as sta
 Observed twice: FuncCall.Func / StructLiteral.Struct / OverloadedBy + argument maps dumped from the real AST by
 ddpprobe, and (for a seeded sample of programs) the output of the executable produced by the real kddp, in which every
 function body prints its own name and its arguments."""
+import hashlib
 import json
 import os
 import random
 import re
+import shutil
+import threading
 
 import vlib
 from vlib import Check, Scratch, Probe, ProbeDied, log
@@ -130,6 +133,15 @@ def judge_static(case, r):
         e = ent[0]
         got = (e["name"], bool(negs), {k: _norm(v) for k, v in (e.get("args") or {}).items()})
         ok = any(got == (a["name"], a["negated"], a["args"]) for a in acc)
+        if ok:
+            # the declaration must be the one of the right module (an instantiation of a generic belongs to the instantiating module)
+            a = [a for a in acc if got == (a["name"], a["negated"], a["args"])][0]
+            want_mod = "" if a["name"] == "<builtin>" else a["module"] + ".ddp"
+            if not a["generic"] and e.get("module", "") != want_mod:
+                judged[s["id"]] = "bad"
+                problems.append((dict(base, kind="wrong-module", got=e.get("module", "")),
+                                 "main.ddp:%d `%s`: callee %s resolved in module %r, declared in %r" % (s["line"], s["text"], e["name"], e.get("module"), want_mod)))
+                continue
         if ok and not here:
             judged[s["id"]] = "ok"
             continue
@@ -169,11 +181,12 @@ def _relation(s, gname):
         return "chosen declaration does not match the argument types"
     if g["len"] != w.get("len"):
         return "shorter pattern chosen" if g["len"] < w.get("len", 0) else "longer pattern chosen"
+    sfx = " (chosen declaration is generic only through 'T Liste' parameters)" if g["only_list_generic"] else ""
     if g["generic"] and not w.get("generic"):
-        return "generic chosen over non-generic of equal length" + (" (generic only through 'T Liste' parameters)" if g["only_list_generic"] else "")
+        return "generic chosen over non-generic of equal length" + sfx
     if g["refs"] < w.get("refs", 0):
-        return "fewer Referenz parameters chosen at equal length"
-    return "other declaration of equal rank"
+        return "fewer Referenz parameters chosen at equal length" + sfx
+    return "other declaration of equal rank" + sfx
 
 
 def _aux_shape(line):
@@ -258,53 +271,29 @@ def run(tier):
         "run-time traces need LOCPATH=/verif/build/locale (decimal comma)",
     ]
     cases_spec = [("a", i) for i in range(n_alias)] + [("o", i) for i in range(n_ops)]
-    chunks = [cases_spec[i::vlib.NCPU] for i in range(vlib.NCPU)]
     feat_keys = ["gt12", "negated", "struct", "imported", "generic", "ref_vs_value", "generic_vs_concrete", "same_pattern_other_types",
                  "permuted", "decl_order_differs", "pun", "builtin"]
+    lock = threading.Lock()
+    it = iter(cases_spec)
+    state = {"dyn_ok": 0, "dyn_tried": 0, "maxcand": 0, "samples_a": {}, "samples_o": {}, "unrelated": {}}
 
-    with Scratch("c09") as sc:
-        def work(chunk):
-            pr = Probe(sc.path)
-            out = []
-            for kind, i in chunk:
-                case = make_case(seed, kind, i, words, nsites)
-                d = os.path.join(sc.path, case["name"])
-                materialize(d, case["files"])
-                try:
-                    r = pr.request({"op": "parse", "id": case["name"], "file": os.path.join(d, "main.ddp"), "dump": True, "cpu_sec": 30})
-                except ProbeDied as e:
-                    r = {"panic": "probe died: %s" % e.marker}
-                verdict, problems, judged = judge_static(case, r)
-                out.append([case, r, verdict, problems, judged, None])
-            pr.close()
-            return out
-
-        results = [x for part in vlib.pmap(work, [c for c in chunks if c]) for x in part]
-        dyn_jobs = [x for x in results if x[2] == "ok" and not x[1].get("faulty") and int(x[0]["name"][1:]) % dyn_every == 0 and x[0]["sites"]]
-
-        def dyn_work(x):
-            x[5] = run_dynamic(x[0], os.path.join(sc.path, x[0]["name"]), x[4])
-
-        vlib.pmap(dyn_work, dyn_jobs)
-
-    results.sort(key=lambda x: (x[0]["kind"], int(x[0]["name"][1:])))
-    dyn_ok = dyn_tried = 0
-    for case, r, verdict, problems, judged, dyn in results:
+    def account(case, r, verdict, problems, judged, dyn):
+        idx = int(case["name"][1:])
         chk.count("programs")
         chk.count("programs_" + ("alias" if case["kind"] == "a" else "operator"))
         chk.count("sites_skipped_generic_overload_on_primitives", case["skipped_sites"])
         chk.count("sites_skipped_word_is_itself_a_call", case.get("skipped_word_call", 0))
         if verdict == "discard-duplicate":
             chk.count("discarded_duplicate_alias(C20)")
-            continue
+            return
         if verdict == "inconclusive":
-            chk.inconclusive += 1
             chk.count("programs_rejected_for_unrelated_reason")
-            if len(chk.extra.setdefault("unrelated_rejections", [])) < 5:
-                chk.extra["unrelated_rejections"].append({"case": case["name"], "panic": r.get("panic"), "err": r.get("err"),
-                                                          "diags": [(os.path.basename(d["file"]), d["l1"], d["code"], d["msg"][:120]) for d in (r.get("diags") or []) if d["level"] == 2][:4]})
-            continue
-        pk = hash(tuple(case["population"]["popkey"]))
+            with lock:
+                chk.inconclusive += 1
+                state["unrelated"][case["name"]] = {"case": case["name"], "panic": r.get("panic"), "err": r.get("err"),
+                                                    "diags": [(os.path.basename(d["file"]), d["l1"], d["code"], d["msg"][:120]) for d in (r.get("diags") or []) if d["level"] == 2][:4]}
+            return
+        pk = hashlib.sha1("|".join(case["population"]["popkey"]).encode()).hexdigest()[:16]
         chk.count("declarations", case["population"]["decls"])
         chk.count("aliases_or_overloads", case["population"]["aliases"])
         chk.count("fixed_calls_checked", len(case["aux"]))
@@ -324,33 +313,74 @@ def run(tier):
             for f in s["feat"].get("forms", []):
                 chk.count("argform_" + f)
             chk.count("ctx_" + s["ctx"])
-        chk.extra["max_pattern_candidates"] = max(chk.extra.get("max_pattern_candidates", 0), max([s["feat"].get("pattern_candidates", 0) for s in case["sites"]] + [0]))
         for sig, text in problems:
             chk.violation(sig, files=_replay_files(case, r), text=text)
         if dyn is not None:
-            dyn_tried += 1
             dprob, nd, status = dyn
             chk.count("dynamic_" + status)
+            with lock:
+                state["dyn_tried"] += 1
+                if status == "ok":
+                    state["dyn_ok"] += 1
+                elif status == "timeout":
+                    chk.inconclusive += 1
             if status == "ok":
-                dyn_ok += 1
                 chk.count("dynamic_sites_compared", nd)
-            elif status == "timeout":
-                chk.inconclusive += 1
             for sig, text in dprob:
                 chk.violation(sig, files=_replay_files(case, r, dynamic=True), text=text)
-        if len(chk.samples) < 4 and case["sites"] and any(s["unique"] and s["feat"].get("shorter_typed") for s in case["sites"]) and not problems:
-            s = [s for s in case["sites"] if s["unique"] and s["feat"].get("shorter_typed")][0]
-            chk.sample({"case": case["name"], "call_site": s["text"], "typed_candidates": s["cands"], "rule_selects": s["accepted"][0]["name"],
-                        "binding": s["accepted"][0]["args"], "pattern_candidates": s["feat"].get("pattern_candidates"), "parser_agreed": True}, limit=4)
-    for case, r, verdict, problems, judged, dyn in results:
-        if case["kind"] == "o" and verdict == "ok" and case["sites"] and not problems:
-            s = case["sites"][0]
-            chk.sample({"case": case["name"], "operator_site": s["text"], "overloads": s["cands"], "rule_selects": s["accepted"][0]["name"], "binding": s["accepted"][0]["args"]}, limit=6)
-            break
-    chk.extra["dynamic_programs_ok"] = dyn_ok
-    if dyn_tried and dyn_ok * 2 < dyn_tried:
+        with lock:
+            state["maxcand"] = max([state["maxcand"]] + [s["feat"].get("pattern_candidates", 0) for s in case["sites"]])
+            if not problems and case["sites"]:
+                if case["kind"] == "a":
+                    good = [s for s in case["sites"] if s["unique"] and s["feat"].get("shorter_typed") and judged.get(s["id"]) == "ok"]
+                    if good and (len(state["samples_a"]) < 4 or idx < max(state["samples_a"])):
+                        s = good[0]
+                        state["samples_a"][idx] = {"case": case["name"], "call_site": s["text"], "typed_candidates": s["cands"], "rule_selects": s["accepted"][0]["name"],
+                                                   "binding": s["accepted"][0]["args"], "pattern_candidates": s["feat"].get("pattern_candidates"), "parser_agreed": True,
+                                                   "executable_printed_expected_trace": bool(dyn and dyn[2] == "ok")}
+                        for k in sorted(state["samples_a"])[4:]:
+                            del state["samples_a"][k]
+                elif len(state["samples_o"]) < 2 or idx < max(state["samples_o"]):
+                    s = case["sites"][0]
+                    state["samples_o"][idx] = {"case": case["name"], "operator_site": s["text"], "overloads": s["cands"], "rule_selects": s["accepted"][0]["name"],
+                                               "binding": s["accepted"][0]["args"], "parser_agreed": judged.get(s["id"]) == "ok"}
+                    for k in sorted(state["samples_o"])[2:]:
+                        del state["samples_o"][k]
+
+    with Scratch("c09") as sc:
+        def worker(_):
+            pr = Probe(sc.path)
+            while True:
+                with lock:
+                    spec = next(it, None)
+                if spec is None:
+                    break
+                kind, i = spec
+                case = make_case(seed, kind, i, words, nsites)
+                d = os.path.join(sc.path, case["name"])
+                materialize(d, case["files"])
+                try:
+                    r = pr.request({"op": "parse", "id": case["name"], "file": os.path.join(d, "main.ddp"), "dump": True, "cpu_sec": 30})
+                except ProbeDied as e:
+                    r = {"panic": "probe died: %s" % e.marker}
+                verdict, problems, judged = judge_static(case, r)
+                dyn = None
+                if verdict == "ok" and not r.get("faulty") and i % dyn_every == 0 and case["sites"]:
+                    dyn = run_dynamic(case, d, judged)
+                account(case, r, verdict, problems, judged, dyn)
+                shutil.rmtree(d, ignore_errors=True)
+            pr.close()
+
+        vlib.pmap(worker, range(vlib.NCPU))
+
+    chk.samples = [state["samples_a"][k] for k in sorted(state["samples_a"])] + [state["samples_o"][k] for k in sorted(state["samples_o"])]
+    if state["unrelated"]:
+        chk.extra["unrelated_rejections"] = [state["unrelated"][k] for k in sorted(state["unrelated"])[:5]]
+    chk.extra["max_pattern_candidates"] = state["maxcand"]
+    chk.extra["dynamic_programs_ok"] = state["dyn_ok"]
+    if state["dyn_tried"] and state["dyn_ok"] * 2 < state["dyn_tried"]:
         log("[C09] most sampled programs could not be compiled and run: the run-time half observed too little")
-        chk.inconclusive += dyn_tried
+        chk.inconclusive += state["dyn_tried"]
     return chk.finish(min_events=1500 if tier == "quick" else 30000)
 
 
